@@ -37,7 +37,7 @@ def snap(o, U, depth=0):
         return (id(o), t, getattr(o, 'meta', None), tuple(snap(c, U, depth + 1) for c in o.children))
     if t is un.CD:
         return (id(o), t, None, tuple((k, snap(v, U, depth + 1)) for k, v in o.data.items()))
-    if t is U.DC:
+    if t is U.DC or t is U.DC2:
         return (id(o), t, o.m, (snap(o.a, U), snap(o.b, U)))
     if t is U.P:
         return (id(o), t, id(o.func), (snap(o.args, U), snap(o.keywords, U)))
